@@ -17,12 +17,13 @@ import EPV.Lemmas.ClosuresStep
 import EPV.Lemmas.ClosuresHof
 import EPV.Lemmas.ClosuresFlags
 import EPV.Lemmas.ClosuresHeap
+import EPV.Lemmas.ClosuresInv
 namespace EPV.C16
 open EPV.Clo
 
 /-! ## closures -/
 
-/-- PARTIAL (findings F16, F05, F16e, F16f, F16m are the five flags): on **every** tree configuration,
+/-- PARTIAL (the flags are the triggers of F16 `stale`, F05/F05c `scope`, `arity`, F16f `focus`): on **every** tree configuration,
 for every program and fuel, a run of the model that raises no trigger flag returns exactly what
 the lexical-closure specification returns.  The full statement `(implEval cfg fuel p).result =
 specEval fuel p` is false when `cfg.share` (see `closure_counterexample`) or `cfg.leak`
@@ -48,23 +49,48 @@ theorem no_stale_when_repaired (cfg : Cfg) (hs : cfg.share = false) (fuel : Nat)
     (implEval cfg fuel p).flags.stale = false :=
   ns_eval cfg hs fuel p _ _ _
 
-/-- `closure_eq_spec` — full strength for F16 on the repaired tree: closures are lexical and fresh
-for **all** programs and call histories.  The remaining hypotheses are the triggers of the other
-recorded findings (they do not involve closure capture): `scope` can only be raised by a program
-with a free variable once F05 is repaired (F05c, dynamic scope of unbound names), `arity` F16e,
-`focus` F16f, `misc` F16m. -/
+/-- on the reference tree (F16, F05, F05c repaired) the `scope` and `arity` triggers are never raised,
+for any program (closed or not) and fuel: the variables dict of every context agrees with the lexical
+environment, every closure holds variables that agree with its lexical bindings, every partial
+application has a pattern of the function's arity (`ClosuresInv.lean`: invariant `HeapOK` + `EnvEq`,
+preserved by every construct). -/
+theorem no_scope_arity_on_reference_tree (fuel : Nat) (p : Expr) :
+    (implEval Cfg.fixed fuel p).flags.scope = false ∧ (implEval Cfg.fixed fuel p).flags.arity = false := by
+  have h := g_eval Cfg.fixed rfl rfl rfl fuel p
+    { item := some (.int 1), lex := [], litem := some (.int 1) } [] (fun _ => rfl)
+    { heap := [], slots := [] } (fun o ho => by simp at ho)
+  exact ⟨h.1, h.2.1⟩
+
+/-- an evaluation returns the variables dict it was given (no construct leaks a binding into the
+caller's variables), on the reference tree, from any state whose closures are well formed -/
+theorem eval_dict_unchanged (fuel : Nat) (e : Expr) (c : ICtx) (D : Env) (st st' : St) (r : Seq × Env)
+    (hD : EnvEq D c.lex) (hh : HeapOK st.heap)
+    (h : (eval Cfg.fixed fuel e c D st).2 = .ok (r, st')) : r.2 = D ∧ HeapOK st'.heap := by
+  have := (g_eval Cfg.fixed rfl rfl rfl fuel e c D hD st hh).2.2 r st' h
+  exact ⟨this.2, this.1⟩
+
+/-- `closure_eq_spec` — on the reference tree the model equals the lexical-closure specification for
+**every** program and fuel, under the single hypothesis that the run does not evaluate `.`,
+`position()`, `last()` or a focus-capturing reference inside a function body (finding F16f, the
+only remaining trigger; `focus_counterexample` shows it is necessary).  `stale`, `scope`, `arity` are
+proved never to be raised. -/
 theorem closure_eq_spec (fuel : Nat) (p : Expr)
-    (h₁ : (implEval Cfg.fixed fuel p).flags.scope = false)
-    (h₂ : (implEval Cfg.fixed fuel p).flags.arity = false)
-    (h₃ : (implEval Cfg.fixed fuel p).flags.focus = false)
-    (h₄ : (implEval Cfg.fixed fuel p).flags.misc = false) :
+    (h : (implEval Cfg.fixed fuel p).flags.focus = false) :
     (implEval Cfg.fixed fuel p).result = specEval fuel p := by
   apply closure_eq_spec_partial
   have h₀ := no_stale_when_repaired Cfg.fixed rfl fuel p
+  obtain ⟨h₁, h₂⟩ := no_scope_arity_on_reference_tree fuel p
   generalize (implEval Cfg.fixed fuel p).flags = fl at *
   cases fl
-  simp only at h₀ h₁ h₂ h₃ h₄
-  simp [Flags.none, h₀, h₁, h₂, h₃, h₄]
+  simp only at h₀ h₁ h₂ h
+  simp [Flags.none, h₀, h₁, h₂, h]
+
+/-- F16f, kernel-checked: `(7,8) ! function(){.}()` — the model (the code) returns `(7,8)`, the
+specification XPDY0002 (the focus is absent in a function body), and the `focus` trigger is raised. -/
+theorem focus_counterexample :
+    let p : Expr := .smap (.par (.cat (.lit 7) (.lit 8))) (.call (.fnE 0 [] .dot) [])
+    implEval Cfg.fixed 20 p = { result := .ok [.int 7, .int 8], flags := { focus := true } } ∧
+    specEval 20 p = .error .XPDY0002 := by decide
 
 /-- the canonical witness of F16: `(for $i in (1,2) return function(){$i}) ! .()` -/
 def witnessF16 : Expr :=
@@ -301,7 +327,8 @@ theorem key_called_per_occurrence (cfg : Cfg) (n : Nat) (c : ICtx) (a : Nat) :
     (∀ (callf : Nat → List Seq → SM Seq) (k : Item → Seq) (g : Item → List Int),
       (∀ x, callf a [[x]] = pure (k x)) → (∀ x, keyOf (k x) = .ok (g x)) →
       ∀ xs, specKeys callf a xs = pure (xs.map fun x => (x, g x)) ∧
-            specSort callf a xs = pure ((sortSpec (xs.map fun x => (x, g x))).map (·.1))) := by
+            (keysUniform (xs.map g) = true →
+              specSort callf a xs = pure ((sortSpec (xs.map fun x => (x, g x))).map (·.1)))) := by
   refine ⟨fun xs D => ?_, fun callf k g hk hg xs => ⟨specKeys_pure callf a k g hk hg xs, specSort_pure callf a k g hk hg xs⟩⟩
   simpa only [List.nil_append, bind_pure] using hofKeys_sim cfg _ _ (eval_sim cfg n) c a xs D []
 
